@@ -116,6 +116,33 @@ def explore(run, tier):
         reads = [rng.choice([None, 1, 4, rng.randrange(1, 50), rng.randrange(1, 1100), rng.randrange(1000, 1030),
                              rng.randrange(1, 3000)]) for _ in range(rng.randrange(1, 9))]
         cases.append({'k': 'reads', 'file': spec, 'reads': reads})
+    # long files and long histories: state that builds up over many blocks (buffer bookkeeping, compaction, ...)
+    for i in range(120 if tier == 'quick' else 3000):
+        n = rng.choice([9000, 12000, 20000, 33000, 60000])
+        style = i % 4
+        reads, left = [], n + 2000
+        while left > 0 and len(reads) < 4000:
+            if style == 0:
+                r = rng.choice([4, rng.randrange(1, 6000)])            # record-reader like: prefix, record
+            elif style == 1:
+                r = rng.randrange(1, 3000)
+            elif style == 2:
+                r = rng.choice([1, 2, 7, 1011, 1012, 1013, 2024, 2025, 8096, 8097])
+            else:
+                r = rng.randrange(200, 700)
+            reads.append(r)
+            left -= r
+        if i % 10 == 0:
+            reads[len(reads) // 2] = None
+        cut = rng.choice([None, None, rng.randrange(0, ((n + P - 1) // P) * 1014)])
+        cases.append({'k': 'reads', 'file': f'blk:{n}' if cut is None else f'blkcut:{n}:{cut}', 'reads': reads})
+    # blocks whose payload looks like fill (0x40 runs) in the middle of the data
+    for pat in ([b'\x01' * 1012, b'\x40' * 1012, b'\x02' * 100], [b'\x40' * 1012, b'\x03' * 1012],
+                [b'\x05' * 500 + b'\x40' * 512, b'\x40' * 1012, b'\x40' * 1012, b'\x06' * 7], [b'\x40' * 3036]):
+        good = ref_blockify(b''.join(pat))
+        cases.append({'k': 'unblock', 'file': 'hex:' + good.hex()})
+        cases.append({'k': 'reads', 'file': 'hex:' + good.hex(), 'reads': [1000, 1000, None]})
+        cases.append({'k': 'reads', 'file': 'hex:' + good.hex(), 'reads': [4, 1008, 4, 1008, 2000]})
     # the validating one-shot unblocker
     for n in [0, 1, 1011, 1012, 1013, 2024, 2025, 3036]:
         cases.append({'k': 'unblock', 'file': f'blk:{n}'})
